@@ -387,3 +387,51 @@ def kget_columns_range_small(c0: int, c1: int, x: int, z: int, i: int, four: boo
     if i < len(cols):
         ok = ok and cols[i].x == x + i and cols[i].repeated is None
     return done(ok)
+
+
+def koptimize(r0: int, r1: int, c0: int, c1: int, e_rows: int, e_cols: int, qx: int, qy: int) -> bool:
+    """
+    pre: 1 <= r0 <= 3 and 1 <= r1 <= 3 and 1 <= c0 and 1 <= c1 and 0 <= e_rows <= 3 and 0 <= e_cols and 0 <= qx and 0 <= qy
+    post: _
+    """
+    # optimize_width keeps every non-empty value at its coordinates (the last data row may itself be a
+    # repeated run), reduces trailing empty rows to at most one and the trailing empty cells of every
+    # row to at most one, and is idempotent
+    t = mk_trailing(r0, r1, c0, c1, e_rows, e_cols, False)
+    t.optimize_width()
+    ew = c0 + c1 + (1 if e_cols > 0 else 0)
+    eh = r0 + r1 + (1 if e_rows > 0 else 0)
+    ok = t.get_value((qx, qy)) == ref(r0, r1, c0, c1, qx, qy) and x_value(t._n, qx, qy) == ref(r0, r1, c0, c1, qx, qy)
+    ok = ok and t.height == eh and t.width == ew and x_total(t._n, "row") == eh
+    snap = snapshot(t._n)
+    t.optimize_width()
+    return done(ok and snapshot(t._n) == snap)
+
+
+def krstrip_styled_rows(r0: int, c0: int, e_rows: int, aggressive: bool, qx: int, qy: int) -> bool:
+    """
+    pre: 1 <= r0 <= 3 and 1 <= c0 and 1 <= e_rows <= 3 and 0 <= qx and 0 <= qy
+    post: _
+    """
+    # trailing rows made only of STYLED empty cells: removed by rstrip(aggressive=True), kept otherwise;
+    # one call does the whole job (a second call changes nothing)
+    from ktable import Node, KTable
+    tn = Node("table")
+    col = Node("column", None, c0)
+    col.parent = tn
+    tn.kids.append(col)
+    for val, rep, styled in ((5, r0, False), (None, e_rows, True)):
+        rn = Node("row", None, rep)
+        c = Node("cell", val, c0, styled)
+        c.parent = rn
+        rn.kids.append(c)
+        rn.parent = tn
+        tn.kids.append(rn)
+    t = KTable(_node=tn)
+    t.rstrip(aggressive=aggressive)
+    eh = r0 if aggressive else r0 + e_rows
+    exp = 5 if (qx < c0 and qy < r0) else None
+    ok = t.height == eh and x_total(t._n, "row") == eh and t.get_value((qx, qy)) == exp and t.width == c0
+    snap = snapshot(t._n)
+    t.rstrip(aggressive=aggressive)
+    return done(ok and snapshot(t._n) == snap and t.height == eh)
